@@ -18,6 +18,8 @@ func VH_block_location_roundtrip() {
 	vReach("end")
 }
 
+// C05(2'): the write-cursor row round trips for every (file, offset); a row whose CRC-32C does not match, or of the
+// wrong length, is reported as corruption rather than misread.
 //verif:opts reach=ok,corrupt
 func VH_write_row_roundtrip() {
 	f, o := vNondetU32("file"), vNondetU32("offset")
